@@ -46,7 +46,7 @@ def _orientation_pred(n):
 
 
 def m1(chk, repo):
-    chk.rule("M1", "every definition of left_wing (VortexMesh) is abs(mesh[0,0,1]) > abs(mesh[0,-1,1]) and every definition of right_wing (EvalVelMtx) is abs(mesh[0,0,1]) < abs(mesh[0,-1,1]) on the surface's own mesh entry: the two components agree on the hand of a symmetric half in set-up, evaluation and linearisation", min_decided=4)
+    chk.rule("M1", "every definition of left_wing (VortexMesh) is abs(mesh[0,0,1]) > abs(mesh[0,-1,1]) and every definition of right_wing (EvalVelMtx) is abs(mesh[0,0,1]) < abs(mesh[0,-1,1]) on the surface's own mesh entry: the two components agree on the hand of a symmetric half in set-up, evaluation and linearisation", min_decided=2)
     found = {"left_wing": [], "right_wing": []}
     for rel, cn in ((A + "vortex_mesh.py", "VortexMesh"), (A + "eval_mtx.py", "EvalVelMtx")):
         c = repo.cls(rel, cn)
